@@ -104,4 +104,28 @@ theorem tie_gates : C15.gateElasticQuotaEnableUpdateResourceKey = "false" ∧ C1
 /-- the entry points take the lock (and defer its release) before touching the recorded state. -/
 theorem tie_lock_first : C15.addLockFirst = true ∧ C15.updLockFirst = true ∧ C15.delLockFirst = true := by decide
 
+/-! ### informer glue (Model/C15Inf.lean: `onAdd` / `onUpdate` / `onDelete`, `deliver` with the identity filter) -/
+
+/-- NewQuotaInformer registers the three handlers of the topology directly (a plain ResourceEventHandlerFuncs literal,
+    one AddEventHandler call): no event filter in front of them — the `flt = fun _ => true` of `sysStep`, which
+    satisfies `FilterOK` (Props: `filterOK_all`, `replicas_converge`). -/
+theorem tie_informer_unfiltered :
+    C15.informerRegistration = "AddEventHandler" ∧ C15.informerHandlerType = "ResourceEventHandlerFuncs" ∧
+    C15.informerHandlers = [("AddFunc", "$p1.OnQuotaAdd"), ("UpdateFunc", "$p1.OnQuotaUpdate"),
+                            ("DeleteFunc", "$p1.OnQuotaDelete")] := by decide
+
+/-- OnQuotaUpdate first unbinds the namespaces of the OLD object, then binds those of the NEW one (model `onUpdate`:
+    `nsSetAll (nsDelAll m o.ns) q.ns q.name`), so a namespace kept across the update stays bound. -/
+theorem tie_onupdate_unbind_before_bind : C15.onUpdNsOps = [("del", "$p0"), ("set", "$p1")] := by decide
+
+/-- what the handlers write, in source order (model: info, child sets, namespace map), and the lock before state. -/
+theorem tie_handler_writes :
+    writes C15.onAddEvents = ["quotaInfoMap", "quotaHierarchyInfo", "quotaHierarchyInfo", "quotaHierarchyInfo", "namespaceToQuotaMap"] ∧
+    writes C15.onUpdEvents = ["quotaInfoMap", "quotaHierarchyInfo", "quotaHierarchyInfo", "namespaceToQuotaMap", "namespaceToQuotaMap"] ∧
+    writes C15.onDelEvents = ["quotaHierarchyInfo", "quotaHierarchyInfo", "quotaInfoMap", "namespaceToQuotaMap"] ∧
+    calls C15.onAddEvents = [] ∧ calls C15.onUpdEvents = [] ∧ calls C15.onDelEvents = [] := by decide
+
+theorem tie_handlers_lock_first :
+    C15.onAddLockFirst = true ∧ C15.onUpdLockFirst = true ∧ C15.onDelLockFirst = true := by decide
+
 end KoordVerif.C15
